@@ -393,14 +393,14 @@ def drive_surface(recipe):
             elif api == "Molecule.promolecule_density_isosurface":
                 from chmpy import Molecule
                 m = Molecule.from_arrays(systems[0][0], systems[0][1])
-                tm = m.promolecule_density_isosurface(separation=sepf, isovalue=iso)
+                tm = m.promolecule_density_isosurface(separation=sepf, isovalue=iso, **recipe.get("kw", {}))
                 meshes = [(tm.vertices, tm.faces)]
             elif api == "Crystal.promolecule_density_isosurfaces":
                 meshes = [(tm.vertices, tm.faces) for tm in
                           crystal.promolecule_density_isosurfaces(separation=sepf, isovalue=iso)]
             elif api == "Crystal.hirshfeld_surfaces":
                 meshes = [(tm.vertices, tm.faces) for tm in
-                          crystal.hirshfeld_surfaces(separation=sepf, isovalue=iso)]
+                          crystal.hirshfeld_surfaces(separation=sepf, isovalue=iso, **recipe.get("kw", {}))]
             elif api == "Crystal.stockholder_weight_isosurfaces":
                 meshes = [(tm.vertices, tm.faces) for tm in
                           crystal.stockholder_weight_isosurfaces(separation=sepf, isovalue=iso)]
@@ -524,6 +524,12 @@ def surface_recipes(ctx):
     for api in ("Crystal.hirshfeld_surfaces", "Crystal.promolecule_density_isosurfaces"):
         out.append({"kind": "surface", "api": api, "src": "cif:acetic_acid.cif", "seps": seps})
     out.append({"kind": "surface", "api": "Crystal.promolecule_density_isosurfaces", "src": "cif:acetic_acid.cif", "seps": seps, "iso": 0.008})
+    # other vertex colourings (the property evaluated on the surface must leave the surface where it is)
+    out.append({"kind": "surface", "api": "Molecule.promolecule_density_isosurface", "src": "water", "mol": WATER, "seps": seps,
+                "kw": {"color": "esp"}})
+    out.append({"kind": "surface", "api": "Molecule.promolecule_density_isosurface", "src": "water", "mol": WATER, "seps": seps,
+                "kw": {"color": "d_i"}})
+    out.append({"kind": "surface", "api": "Crystal.hirshfeld_surfaces", "src": "cif:acetic_acid.cif", "seps": seps, "kw": {"color": "esp"}})
     out.append({"kind": "surface", "api": "Crystal.hirshfeld_surfaces", "src": "cif:acetic_acid.cif", "seps": seps, "iso": 0.4})
     for i in range(ctx.pick(1, 3)):
         seed = ctx.seed * 31 + 500 + i
